@@ -193,9 +193,13 @@ theorem ext_validateChildParentsAttrs (cas : List ChildParentsAttr) (tps : List 
     apply ext_foldl_snd ca.childParents
     · intro cd s es m hm
       simp only
+      have h1 : m ∈ (if s.contains cd.fieldPathStr then es.insert "Ident here must be unique." else es) := by
+        split
+        · exact mem_insert_of_mem _ _ _ hm
+        · exact hm
       split
-      · exact mem_insert_of_mem _ _ _ hm
-      · exact hm
+      · exact mem_insert_of_mem _ _ _ h1
+      · exact h1
     · split
       · simp only
         repeat' split
@@ -370,7 +374,9 @@ theorem validate_tail_ext (input : DataType) (es : Errors) (m : String) (hm : m 
          let es := input.members.foldl (validateMember input isEnum typePaths byKind) es
          match input with
          | .struct s => validateFields s byKind typePaths es
-         | .enum e => e.variants.foldl (fun es v => validateVariantFields v attrs es) es) := by
+         | .enum e =>
+           let es := (attrs.ghostsAttrs.flatMap (fun (x : GhostsAttr) => x.attr.ghostData)).foldl (fun es g => enumGhostIdentPass g es) es
+           e.variants.foldl (fun es v => validateVariantFields v attrs es) es) := by
   simp only
   have h1 := mem_foldl_of_mem validateKinds (fun es k => validateGhostAttrs k input.attrs.ghostsAttrs (input.attrs.attrs.map (·.core.ty)) es) es m
     (fun k es hm => ext_validateGhostAttrs _ _ _ es m hm) hm
@@ -381,7 +387,13 @@ theorem validate_tail_ext (input : DataType) (es : Errors) (m : String) (hm : m 
     (fun member es hm => ext_validateMember _ _ _ _ member es m hm) h3
   cases input with
   | struct s => exact ext_validateFields _ _ _ _ _ h4
-  | enum e => exact mem_foldl_of_mem _ _ _ m (fun v es hm => ext_validateVariantFields v _ es m hm) h4
+  | enum e =>
+    have h5 := mem_foldl_of_mem ((DataType.enum e).attrs.ghostsAttrs.flatMap (fun x => x.attr.ghostData)) (fun es g => enumGhostIdentPass g es) _ m
+      (fun g es hm => by
+        unfold enumGhostIdentPass
+        repeat' split
+        all_goals first | exact mem_insert_of_mem _ _ _ hm | exact hm) h4
+    exact mem_foldl_of_mem _ _ _ m (fun v es hm => ext_validateVariantFields v _ es m hm) h5
 
 theorem mem_foldl_of_step {α} (xs : List α) (step : Errors → α → Errors) (es : Errors) (m : String) (x : α) (hx : x ∈ xs)
     (hext : ∀ y es, m ∈ es → m ∈ step es y) (hstep : ∀ es, m ∈ step es x) : m ∈ xs.foldl step es := by
